@@ -19,8 +19,13 @@ use vh::util::*;
 struct NoWake;
 impl Wake for NoWake { fn wake(self: Arc<Self>) {} }
 
+/// a received handle, kept by the harness until it is released
+trait Held: Send { fn value(&self) -> u32; fn refs(&self) -> u32; fn ident(&self) -> usize; }
+impl Held for Arc<u32> { fn value(&self) -> u32 { **self } fn refs(&self) -> u32 { Arc::strong_count(self) as u32 } fn ident(&self) -> usize { Arc::as_ptr(self) as usize } }
+impl<A: reactive_mutiny::ogre_std::ogre_alloc::BoundedOgreAllocator<u32> + Send + Sync> Held for OgreArc<u32, A> {
+    fn value(&self) -> u32 { **self } fn refs(&self) -> u32 { self.references_count() } fn ident(&self) -> usize { &**self as *const u32 as usize } }
 /// what a listener received: the value and an identity of the shared allocation
-type Got = (u32, usize, Box<dyn std::any::Any + Send>);
+type Got = (u32, usize, Box<dyn Held>);
 
 trait PollS: Send { fn poll(&mut self) -> Option<Got>; }
 trait MultiApi: Send + Sync {
@@ -52,11 +57,11 @@ macro_rules! multi_impl {
     };
 }
 macro_rules! kinds { ($m:literal) => {
-    multi_impl!(ChannelMultiArcAtomic<u32, 8, $m>, Arc<u32>, 8, |a: Arc<u32>| (*a, Arc::as_ptr(&a) as usize, Box::new(a) as Box<dyn std::any::Any + Send>));
-    multi_impl!(ChannelMultiArcFullSync<u32, 8, $m>, Arc<u32>, 8, |a: Arc<u32>| (*a, Arc::as_ptr(&a) as usize, Box::new(a) as Box<dyn std::any::Any + Send>));
-    multi_impl!(ChannelMultiArcCrossbeam<u32, 8, $m>, Arc<u32>, 8, |a: Arc<u32>| (*a, Arc::as_ptr(&a) as usize, Box::new(a) as Box<dyn std::any::Any + Send>));
-    multi_impl!(ChannelMultiOgreArcAtomic<u32, 8, $m>, OgreArc<u32, AllocatorAtomicArray<u32, 8>>, 8, |a: OgreArc<u32, AllocatorAtomicArray<u32, 8>>| (*a, &*a as *const u32 as usize, Box::new(a) as Box<dyn std::any::Any + Send>));
-    multi_impl!(ChannelMultiOgreArcFullSync<u32, 8, $m>, OgreArc<u32, AllocatorFullSyncArray<u32, 8>>, 8, |a: OgreArc<u32, AllocatorFullSyncArray<u32, 8>>| (*a, &*a as *const u32 as usize, Box::new(a) as Box<dyn std::any::Any + Send>));
+    multi_impl!(ChannelMultiArcAtomic<u32, 8, $m>, Arc<u32>, 8, |a: Arc<u32>| (*a, Arc::as_ptr(&a) as usize, Box::new(a) as Box<dyn Held>));
+    multi_impl!(ChannelMultiArcFullSync<u32, 8, $m>, Arc<u32>, 8, |a: Arc<u32>| (*a, Arc::as_ptr(&a) as usize, Box::new(a) as Box<dyn Held>));
+    multi_impl!(ChannelMultiArcCrossbeam<u32, 8, $m>, Arc<u32>, 8, |a: Arc<u32>| (*a, Arc::as_ptr(&a) as usize, Box::new(a) as Box<dyn Held>));
+    multi_impl!(ChannelMultiOgreArcAtomic<u32, 8, $m>, OgreArc<u32, AllocatorAtomicArray<u32, 8>>, 8, |a: OgreArc<u32, AllocatorAtomicArray<u32, 8>>| (*a, &*a as *const u32 as usize, Box::new(a) as Box<dyn Held>));
+    multi_impl!(ChannelMultiOgreArcFullSync<u32, 8, $m>, OgreArc<u32, AllocatorFullSyncArray<u32, 8>>, 8, |a: OgreArc<u32, AllocatorFullSyncArray<u32, 8>>| (*a, &*a as *const u32 as usize, Box::new(a) as Box<dyn Held>));
 } }
 kinds!(1); kinds!(2); kinds!(4);
 
@@ -79,7 +84,7 @@ fn filter(tag: &str) -> bool {
 
 /// a listener as the oracle sees it
 struct Listener { sid: u32, created_at: usize, created_ret: usize, dropped_at: Option<usize>, dropped_ret: Option<usize>, got: Vec<(u32, usize, usize)>, stream: Option<std::mem::ManuallyDrop<Box<dyn PollS>>> }
-struct Shared { listeners: Vec<Listener>, sends: Vec<(u32, usize, usize, usize)>, handles: Vec<(u32, Box<dyn std::any::Any + Send>)> }
+struct Shared { listeners: Vec<Listener>, sends: Vec<(u32, usize, usize, usize)>, handles: Vec<(u32, Box<dyn Held>)>, hviol: Vec<(String, String)>, inflight: Vec<u32> }
 
 fn do_create(ctx: &sched::Ctx, ch: &dyn MultiApi, sh: &Mutex<Shared>, lt: usize) -> usize {
     let pos = ctx.call(lt, "create");
@@ -99,9 +104,12 @@ fn do_drop(ctx: &sched::Ctx, sh: &Mutex<Shared>, lt: usize, li: usize) {
 }
 fn do_send(ctx: &sched::Ctx, ch: &dyn MultiApi, sh: &Mutex<Shared>, lt: usize, v: u32) {
     let pos = ctx.call(lt, &format!("send {v}"));
+    sh.lock().unwrap().inflight.push(v);
     let ok = ch.send(v);
     let r = ctx.ret(if ok { "unit" } else { "full" });
-    if ok { sh.lock().unwrap().sends.push((v, lt, pos, r)); }
+    let mut g = sh.lock().unwrap();
+    g.inflight.retain(|x| *x != v);
+    if ok { g.sends.push((v, lt, pos, r)); }
 }
 fn do_poll(ctx: &sched::Ctx, sh: &Mutex<Shared>, lt: usize, li: usize) -> bool {
     let (mut s, sid) = { let mut g = sh.lock().unwrap(); match g.listeners[li].stream.take() { Some(s) => (s, g.listeners[li].sid), None => return false } };
@@ -110,9 +118,40 @@ fn do_poll(ctx: &sched::Ctx, sh: &Mutex<Shared>, lt: usize, li: usize) -> bool {
     let mut g = sh.lock().unwrap();
     g.listeners[li].stream = Some(s);
     match got {
-        Some((v, ident, h)) => { g.listeners[li].got.push((v, ident, pos)); g.handles.push((v, h)); drop(g); ctx.ret(&format!("item {v}")); true }
+        Some((v, ident, h)) => {
+            // storage must not be reused while a handle on it is still held
+            if let Some((w, _)) = g.handles.iter().find(|(w, k)| *w != v && k.ident() == ident) { let w = *w; g.hviol.push(("slot_reused_while_held".into(), format!("event {v} arrived in the storage (address {ident:#x}) of event {w}, on which a listener still holds a handle"))); }
+            g.listeners[li].got.push((v, ident, pos)); g.handles.push((v, h)); drop(g); ctx.ret(&format!("item {v}")); true }
         None => { drop(g); ctx.ret("item none"); false }
     }
+}
+
+/// releases every handle the harness holds; first checks, per event, that no more handles are held than the reference counter says
+/// (then the value behind some handle is destroyed while held) and that each handle still reads the value it was received with
+fn release_all(ctx: &sched::Ctx, sh: &Mutex<Shared>, lt: usize) { release_some(ctx, sh, lt, None) }
+/// `only = Some(v)`: release just the newest handle on event `v` (a consumer that is done with an event at once)
+fn release_some(ctx: &sched::Ctx, sh: &Mutex<Shared>, lt: usize, only: Option<u32>) {
+    let (hs, inflight): (Vec<_>, Vec<u32>) = { let mut g = sh.lock().unwrap(); (std::mem::take(&mut g.handles), g.inflight.clone()) };
+    let mut bad: std::collections::HashSet<u32> = Default::default();
+    for (v, h) in &hs {
+        let cur = ctx.quiet(|| h.value());
+        if cur != *v { sh.lock().unwrap().hviol.push(("held_value_changed".into(), format!("a handle received as event {v} now reads {cur}: its storage was reused while held"))); bad.insert(*v); }
+        let held = hs.iter().filter(|(w, k)| w == v && k.ident() == h.ident()).count() as u32;
+        let refs = ctx.quiet(|| h.refs());
+        // while the send of this event is still going on its producer holds a handle too
+        let held = held + inflight.contains(v) as u32;
+        if held > refs && !bad.contains(v) { sh.lock().unwrap().hviol.push(("destroyed_while_held".into(), format!("{held} handles on event {v} are held but its reference counter reads {refs}: the payload is destroyed (and its storage recycled) while {} handle(s) still exist", held - refs))); bad.insert(*v); }
+    }
+    let mut keep = vec![];
+    let last = only.and_then(|o| hs.iter().rposition(|(w, _)| *w == o));
+    for (k, (v, h)) in hs.into_iter().enumerate() {
+        if bad.contains(&v) { std::mem::forget(h); continue }
+        if only.is_some() && Some(k) != last { keep.push((v, h)); continue }
+        ctx.call(lt, &format!("release {v}")); drop(h);
+    }
+    let mut g = sh.lock().unwrap();
+    keep.extend(std::mem::take(&mut g.handles));
+    g.handles = keep;
 }
 
 fn run_one(kind: &str, sub: &str, seed: u64, replay: Option<Vec<u8>>) -> (sched::Outcome, Vec<(String, String)>, String, String) {
@@ -120,7 +159,7 @@ fn run_one(kind: &str, sub: &str, seed: u64, replay: Option<Vec<u8>>) -> (sched:
     let mx = [1usize, 2, 4][rng.below(3) as usize];
     let mx = if sub == "churn" { 4 } else { mx };
     let ch = make(kind, mx);
-    let sh = Arc::new(Mutex::new(Shared { listeners: vec![], sends: vec![], handles: vec![] }));
+    let sh = Arc::new(Mutex::new(Shared { listeners: vec![], sends: vec![], handles: vec![], hviol: vec![], inflight: vec![] }));
     let done = Arc::new(AtomicUsize::new(0));
     let mut bodies: Vec<Body> = vec![];
     let mut cfgkey = format!("{kind}/{sub}/M{mx}");
@@ -154,13 +193,11 @@ fn run_one(kind: &str, sub: &str, seed: u64, replay: Option<Vec<u8>>) -> (sched:
                     },
                 }
                 // keep the pools from filling up: handles are released as soon as they are received
-                let hs: Vec<_> = std::mem::take(&mut sh.lock().unwrap().handles);
-                for (v, h) in hs { ctx.call(0, &format!("release {v}")); drop(h); }
+                release_all(ctx, &sh, 0);
             }
             // drain what the live listeners still have, then drop them
             for li in live.clone() { while do_poll(ctx, &sh, 0, li) {} }
-            let hs: Vec<_> = std::mem::take(&mut sh.lock().unwrap().handles);
-            for (v, h) in hs { ctx.call(0, &format!("release {v}")); drop(h); }
+            release_all(ctx, &sh, 0);
             let c = ctx.quiet(|| ch.running()); ctx.note(format!("obs count {c}"));
             for li in live { do_drop(ctx, &sh, 0, li); }
             let c = ctx.quiet(|| ch.running()); ctx.note(format!("obs count {c}"));
@@ -194,7 +231,15 @@ fn run_one(kind: &str, sub: &str, seed: u64, replay: Option<Vec<u8>>) -> (sched:
             bodies.push(Box::new(move |ctx| {
                 let lt = 10 + c;
                 ctx.block_until(Box::new(move || sd.load(SeqCst)));
-                for _ in 0..n { do_poll(ctx, &sh, lt, c); }
+                let mut prng = Rng::new(seed ^ (0x51 + c as u64));
+                for _ in 0..n {
+                    let before = sh.lock().unwrap().listeners[c].got.len();
+                    if do_poll(ctx, &sh, lt, c) && prng.chance(1, 2) {
+                        // this consumer is done with the event at once (the others may still be waiting for their copy)
+                        let v = sh.lock().unwrap().listeners[c].got[before].0;
+                        release_some(ctx, &sh, lt, Some(v));
+                    }
+                }
                 done.fetch_add(1, SeqCst);
             }));
         }
@@ -228,8 +273,7 @@ fn run_one(kind: &str, sub: &str, seed: u64, replay: Option<Vec<u8>>) -> (sched:
                 ctx.block_until(Box::new(move || d2.load(SeqCst) == others));
                 let n = sh.lock().unwrap().listeners.len();
                 for li in 0..n { while do_poll(ctx, &sh, lt, li) {} }
-                let hs: Vec<_> = std::mem::take(&mut sh.lock().unwrap().handles);
-                for (v, h) in hs { ctx.call(lt, &format!("release {v}")); drop(h); }
+                release_all(ctx, &sh, lt);
                 // capacity restored: BUFFER_SIZE more events are accepted (each consumed + released at once by everybody)
                 let mut acc = 0;
                 for i in 0..ch.buffer() {
@@ -245,6 +289,7 @@ fn run_one(kind: &str, sub: &str, seed: u64, replay: Option<Vec<u8>>) -> (sched:
     }
     let _ = nthreads;
     let mut cfg = Config::new(seed, filter);
+    cfg.watch = |t| t == "oa.inc";     // where the reference counter is raised, relative to the fan-out loop (checked against the model)
     cfg.replay = replay;
     let outcome = sched::run(cfg, bodies);
     // ---------------------------------------------------------------- oracle
@@ -253,6 +298,7 @@ fn run_one(kind: &str, sub: &str, seed: u64, replay: Option<Vec<u8>>) -> (sched:
     if outcome.verdict != Verdict::Completed { viol.push(("no_progress".into(), format!("{:?}", outcome.verdict))); }
     for (i, p) in outcome.panics.iter().enumerate() { if let Some(m) = p { viol.push(("panic".into(), format!("thread {i} panicked: {}", &m[..m.len().min(200)]))); } }
     let end = outcome.trace.len();
+    viol.extend(g.hviol.iter().cloned());
     // listener creations / removals whose call overlapped the trace window [a, b] (stream id, 'c' | 'd'), other than listener `not`
     let churn_in = |a: usize, b: usize, not: usize| -> Vec<(u32, char)> {
         let mut v = vec![];
@@ -326,6 +372,7 @@ fn main() {
     let single = a.kv.get("choices").map(|c| parse_choices(c));
     for i in 0..runs {
         let seed = if a.kv.contains_key("seedx") { a.num("seedx", 0) } else { seed0.wrapping_mul(1_000_003).wrapping_add(i) };
+        mark_run(seed);
         let (o, viol, cfgkey, cfg) = run_one(&kind, &sub, seed, single.clone());
         let nontrivial = match sub.as_str() {
             "hist" => o.trace.iter().filter(|l| l.contains(" drop ")).count() > 0 && o.trace.iter().filter(|l| l.contains(" create")).count() > 1,
